@@ -66,7 +66,13 @@ def make_harness(kinds, names, frozen_ids, nsteps):
                 w = C.World(kinds[wi], Database(UNIVERSE), boots=7 + 5 * wi, clock=(lambda wi=wi: 1000 + 100000 * wi),
                             agent_engine_id=(C.ENGINE_ID if wi == 0 else b"\x80\x00\x1f\x88\x04engine-%d" % wi))
                 try:
-                    alone.append(norm(name, w.run(start(w.client, name, i))))
+                    try:
+                        alone.append(norm(name, w.run(start(w.client, name, i))))
+                    except Exception as exc:  # noqa: BLE001
+                        fid = w.known_exception(exc)
+                        if fid and known(fid):
+                            return True   # the operation cannot even run alone because of a listed finding
+                        raise
                 finally:
                     w.close()
             from engine.core import seam
@@ -133,6 +139,10 @@ def jobs(tier):
     nsteps = 16 if quick else 22
     for kinds in (("v2c",), ("sha1priv",), ("md5",), ("v2c", "sha1priv"), ("md5", "sha1priv")):
         for names in combos + triples:
+            if "walkB" in names and "md5" in kinds:
+                continue   # over md5/authNoPriv the two-root walk runs into known finding F08 (a 127-octet TLV): vacuous
+            if names == ("walkA", "walkB", "bulkwalkC") and kinds != ("v2c",):
+                continue   # 72072 interleavings: only on the cheapest protocol
             if quick:
                 if kinds == ("md5",) and names not in (("get", "walkA"), ("set", "set"), ("walkA", "bulkwalkC")):
                     continue
@@ -146,7 +156,7 @@ def jobs(tier):
                 if quick and not frozen and kinds not in (("v2c",), ("md5",)) and names not in (("get", "walkA"), ("set", "multiget")):
                     continue
                 name = "%s-%s-%s" % ("+".join(kinds), "+".join(names), "frozen-clock" if frozen else "counter-ids")
-                heavy = len(names) == 3 and any(k != "v2c" for k in kinds)
+                heavy = len(names) == 3 and (any(k != "v2c" for k in kinds) or names == ("walkA", "walkB", "bulkwalkC"))
                 parts = [(a, b) for a in range(3) for b in range(3)] if heavy else [None]
                 for part in parts:
                     a = [Arg(f"s{i}", 0, len(names) - 1) for i in range(nsteps)]
